@@ -826,6 +826,14 @@ def C17(run):
         stats[i.split(' ')[0] + (' ' + i.split(' ')[1] if i.startswith('CRASH') else '')] += 1
         if i.startswith('OK'):
             why = precedence_ok(i)
+            if not why:
+                # "then an option embedded in the ballot file": every option the harness embedded (in whichever [droop ...] block) is in the
+                # file layer the record reports
+                fl = dict(x.split(':', 1) for x in i[3:].split(' ') if ':' in x).get('file', '')
+                have = set(parse_sd(fl))
+                missing = sorted({t.split('=', 1)[0] for t in f if '=' in t} - have)   # a bare token is the ballot path or a flag
+                if missing:
+                    why = 'embedded in the ballot file but absent from the file layer of the record: %s' % ', '.join(missing)
             if why:
                 nfail += 1
                 if nfail <= 3:
